@@ -236,9 +236,9 @@ var _ sync.Mutex
 
 // othersEnabled reports whether any goroutine other than the running one can
 // make progress.
-func (s *scheduler) othersEnabled() bool {
+func (s *scheduler) othersEnabled(me *goroutine) bool {
 	for _, g := range s.gs {
-		if g != s.cur && g.enabled() {
+		if g != me && g.enabled() {
 			return true
 		}
 	}
